@@ -5,6 +5,7 @@
   R03.4  capture re-threading protocol between into_static_ud and its two call sites
   R03.5  name lookup order: own variables, types, functions before the parent
   R03.6  runtime parent search compares template ids with the compile-time parent id (sibling loops agree)
+  R03.7-R03.10  the forward gate is transitive and survives escaping function values (see forward_closure)
 """
 import re
 from .lib import mirq, astq
@@ -385,3 +386,172 @@ def run(ctx):
     if not ok:
         r6.fail('to_function/parent-id', 'src/xexpr.rs', 'to_function does not pass the function\'s compile-time parent id to from_specs')
     r6.need(3)
+
+    forward_closure(ctx)
+
+
+def _reach_avoiding(b, starts, avoid):
+    seen = set()
+    todo = [s for s in starts]
+    while todo:
+        x = todo.pop()
+        if x in seen or x in avoid or b.is_cleanup(x):
+            continue
+        seen.add(x)
+        todo.extend(b.succ(x))
+    return seen
+
+
+def _reads_cell_requirements(b, bb):
+    """does the block read (or borrow, or extend) the forward_requirements of a Cell::Variable?"""
+    bl = b.blocks[bb]
+    for s in bl['stmts']:
+        for mode, p in mirq.places_in_stmt(s):
+            if any(isinstance(e, dict) and e.get('dc') == 'Variable' for e in p['p']) and any(isinstance(e, dict) and e.get('n') == 'forward_requirements' for e in p['p']):
+                return True
+    return False
+
+
+def forward_closure(ctx):
+    """R03.7-R03.10: the forward gate is transitive and survives escaping function values.
+      R03.7  a definition that fulfils a forward declaration hands its own outstanding requirements to the declaration's cell
+             (must-pass-through in add_static_func: no path registers the function without storing its requirement set in a cell)
+      R03.8  require_forwards looks through a fulfilled declaration at the requirements of its cell (a fulfilled declaration is only
+             as ready as its implementation)
+      R03.9  a function value created from a scope whose own capture is still pending first follows that capture: it stays pending
+             only when the captured cell is still unfilled (from_spec: the PendingCapture arm passes through the chain walk)
+      R03.10 resolving a pending capture must not panic when the lexical parent of an escaped function value is gone"""
+    mir = ctx.mir
+    r7 = ctx.rule('R03.7', 'a fulfilling definition stores its own forward requirements in the cell of the declaration')
+    bs = mir.find(CS + '::add_static_func')
+    if len(bs) != 1:
+        r7.fail('anchor/add_static_func', 'src/compilation_scope.rs', 'add_static_func not found')
+    else:
+        b = bs[0]
+        # the function's own requirement set: locals of the requirement-vector type fed from the function's forward_requirements
+        reqs = {l for l in range(len(b.locals)) if strip_generics(b.local_ty(l) or '') == strip_generics(FREQ_TY)}
+        # sinks: a Cell::Variable built from it, or a cell's requirement list extended with it
+        sinks = set()
+        for i, j, s in b.stmts():
+            if s['k'] == 'assign' and s['rv']['k'] == 'agg' and s['rv'].get('adt', '').endswith('compilation_scope::Cell') and s['rv'].get('v') == 'Variable':
+                if any(op_local(o) in reqs or (op_local(o) is not None and mirq.backslice(b, [op_local(o)]) & reqs) for o in s['rv']['ops']):
+                    sinks.add(i)
+        for bb, t in b.calls():
+            nm = strip_generics(t.get('decl') or t.get('callee') or '')
+            if re.search(r'(::extend|::append|::extend_from_slice|::push)$', nm) and len(t['args']) >= 2:
+                recv = op_local(t['args'][0])
+                tgt_cell = recv is not None and any(_reads_cell_requirements(b, d[1]) for l in mirq.backslice(b, [recv]) for d in b.defs().get(l, []) if d[0] == 'stmt')
+                src_l = op_local(t['args'][1])
+                if tgt_cell and src_l is not None and (mirq.backslice(b, [src_l]) & reqs):
+                    sinks.add(bb)
+        regs = [i for i, j, s in b.stmts() if s['k'] == 'assign' and s['rv']['k'] == 'agg' and s['rv'].get('adt', '').endswith('Declaration') and s['rv'].get('v') == 'Function']
+        if not regs or not reqs:
+            r7.fail('anchor/add_static_func/shape', mirq.site(b, 0), 'no Declaration::Function registration / requirement set found')
+        else:
+            free = _reach_avoiding(b, [0], sinks)
+            bad = [x for x in regs if x in free]
+            ok = not bad
+            # which branch escapes: the one that marks a forward declaration fulfilled
+            fulfil = [i for i, j, s in b.stmts() if s['k'] == 'assign' and any(isinstance(e, dict) and e.get('n') == 'fulfilled' for e in s['place']['p'])]
+            r7.inst({'fn': b.nid, 'requirement_sinks': len(sinks), 'registration_reachable_without_storing_requirements': not ok}, ok=ok)
+            if not ok:
+                where = mirq.site(b, fulfil[0]) if fulfil else mirq.site(b, bad[0])
+                r7.fail('add_static_func/fulfilment-drops-requirements', where, 'the function is registered on a path that never stores its own forward requirements in a cell (the branch that fulfils a forward declaration): a definition that fulfils one declaration while waiting for another can be invoked early (uninitialized cell at run time)')
+    r7.need(1)
+
+    r8 = ctx.rule('R03.8', 'require_forwards follows a fulfilled declaration to the requirements of its cell')
+    bs = mir.find(REQ)
+    if len(bs) != 1:
+        r8.fail('anchor/require_forwards', 'src/compilation_scope.rs', 'require_forwards not found')
+    else:
+        b = bs[0]
+        sws = []
+        for bb in range(len(b.blocks)):
+            tm = b.term(bb)
+            if tm['k'] != 'switch':
+                continue
+            dl = op_local(tm['discr'])
+            for kind, dbb, idx, x in b.defs().get(dl, []) if dl is not None else []:
+                if kind == 'stmt' and x['rv']['k'] in ('use', 'copyderef'):
+                    pl = x['rv'].get('place') or op_place(x['rv']['op'])
+                    if pl and any(isinstance(e, dict) and e.get('n') == 'fulfilled' for e in pl['p']):
+                        sws.append(bb)
+        if len(sws) != 1:
+            r8.fail('anchor/require_forwards/fulfilled-test', mirq.site(b, 0), 'expected one test of ForwardRef::fulfilled, found %d' % len(sws))
+        else:
+            sw = sws[0]
+            tm = b.term(sw)
+            false_t = [x for v, x in tm['targets'] if v == '0']
+            true_t = tm['otherwise']
+            # locals holding (a reference to) the requirement list of a cell, and the calls that hand them on (to the work list, to a
+            # recursive require_forwards, ...): only such a call counts as consulting the cell
+            held = set()
+            for i, j, s in b.stmts():
+                if s['k'] == 'assign' and not s['place']['p']:
+                    for mode, pl in mirq.places_in_stmt(s):
+                        if mode != 'w' and any(isinstance(e, dict) and e.get('dc') == 'Variable' for e in pl['p']) and any(isinstance(e, dict) and e.get('n') == 'forward_requirements' for e in pl['p']):
+                            held.add(s['place']['l'])
+            readers = set()
+            for bb, t in b.calls():
+                nm = strip_generics(t.get('decl') or t.get('callee') or '')
+                if not re.search(r'(::extend|::append|::push|::extend_from_slice|::require_forwards|::insert)$', nm):
+                    continue
+                if any(op_local(a) is not None and (mirq.backslice(b, [op_local(a)]) & held) for a in t['args'][1:]):
+                    readers.add(bb)
+            # helpers of the same type that read a cell's requirements count as readers at their call site
+            for bb, t in b.calls():
+                for h in mir.find(strip_generics(t.get('callee') or '')):
+                    if h.nid.startswith(CS + '::') and h is not b and any(_reads_cell_requirements(h, x) for x in range(len(h.blocks))):
+                        readers.add(bb)
+            # from the `fulfilled` edge, can the loop go on (reach the test again) or the function return without consulting the cell?
+            free = _reach_avoiding(b, [true_t], readers)
+            ends = [x for x in free if b.term(x)['k'] == 'return' or x == sw]
+            ok = bool(false_t) and true_t not in false_t and not ends
+            r8.inst({'fn': b.nid, 'cell_requirement_reads': len(readers), 'fulfilled_edge_consults_cell': ok}, ok=ok)
+            if not ok:
+                r8.fail('require_forwards/not-transitive', mirq.site(b, sw), 'a fulfilled forward declaration is accepted without looking at the requirements of its cell: a function that calls a fulfilled declaration whose implementation still waits for another declaration can be invoked early')
+    r8.need(1)
+
+    r9 = ctx.rule('R03.9', 'a capture of a pending capture is resolved through the chain when the function value is created')
+    bs = mir.find('runtime_scope::EvaluationCell::from_spec')
+    if len(bs) != 1:
+        r9.fail('anchor/from_spec', 'src/runtime_scope.rs', 'EvaluationCell::from_spec not found')
+    else:
+        b = bs[0]
+        adt = mir.adts.get('runtime_scope::EvaluationCell')
+        vidx = {v['name']: i for i, v in enumerate(adt['variants'])} if adt else {}
+        pend = vidx.get('PendingCapture')
+        walks = [bb for bb, t in b.calls() if re.search(r'RuntimeScope::(try_)?scope_ancestor(_and_cell|_at_depth)$', strip_generics(t.get('callee') or ''))]
+        makes = [i for i, j, s in b.stmts() if s['k'] == 'assign' and s['rv']['k'] == 'agg' and s['rv'].get('adt') == 'runtime_scope::EvaluationCell' and s['rv'].get('v') == 'PendingCapture']
+        sw = None
+        for bb in sorted(range(len(b.blocks))):
+            tm = b.term(bb)
+            if tm['k'] == 'switch' and pend is not None and any(v == str(pend) for v, x in tm['targets']) and walks and mirq.dominates(b, walks[0], bb):
+                sw = bb
+                break
+        if sw is None or not makes or not walks:
+            r9.fail('anchor/from_spec/shape', mirq.site(b, 0), 'expected the match on the captured ancestor cell after scope_ancestor_and_cell')
+        else:
+            tm = b.term(sw)
+            tgt = [x for v, x in tm['targets'] if v == str(pend)][0]
+            later_walks = {w for w in walks if w != walks[0] and not mirq.dominates(b, w, sw)}
+            free = _reach_avoiding(b, [tgt], later_walks)
+            bad = [m for m in makes if m in free]
+            ok = not bad
+            r9.inst({'fn': b.nid, 'chain_walks_after_the_match': len(later_walks), 'pending_of_pending_without_walk': not ok}, ok=ok)
+            if not ok:
+                r9.fail('from_spec/pending-of-pending', mirq.site(b, bad[0]), 'when the captured ancestor cell is itself a pending capture, the new function value is given a pending capture without looking whether the captured cell has been filled since: returned from its creator and called later, it panics ("ran out of scope parents at runtime") although the forward declaration was fulfilled before it was created')
+    r9.need(1)
+
+    r10 = ctx.rule('R03.10', 'resolving a pending capture does not panic when a lexical parent is gone')
+    bs = mir.find('runtime_scope::RuntimeScope::scope_ancestor_at_depth')
+    if len(bs) != 1:
+        r10.fail('anchor/scope_ancestor_at_depth', 'src/runtime_scope.rs', 'scope_ancestor_at_depth not found')
+    else:
+        b = bs[0]
+        panics = [bb for bb, t in b.calls() if re.search(r'Option::(expect|unwrap)$', strip_generics(t.get('decl') or t.get('callee') or ''))]
+        ok = not panics
+        r10.inst({'fn': b.nid, 'panicking_parent_accesses': len(panics)}, ok=ok)
+        if not ok:
+            r10.fail('scope_ancestor_at_depth/expect-parent', mirq.site(b, panics[0]), 'pending captures are resolved through lexical parent links with expect(): a function value that escaped its creating activation (returned, stored) has no such parent; when it, or something it calls, still holds a pending forward capture the interpreter panics instead of finding the cell')
+    r10.need(1)
